@@ -108,5 +108,7 @@ func main() {
 	c.Set("max_len", maxLen)
 	c.Set("alphabet_max_len", alphaLen)
 	c.Assume("blake2b-256 (golang.org/x/crypto) is trusted")
+	// free-running -race pass: concurrent callers on their own lists (state shared between calls)
+	c.RaceAudit("c35")
 	c.Finish()
 }
